@@ -26,13 +26,9 @@ def pobs(po):
             "writes": po["writes"], "evs": po["evs"]}
 
 
-def record(mod, d, raw, start, gen, c01=True, pack=True):
+def make_record(d, raw, start, gen, ro, po, c01=True):
     generic = gen is not None and not gen.get("generate_for_unpack", True)
     genericp = gen is not None and not gen.get("generate_for_pack", True)
-    ro = rp.run_unpack(mod, d["root"], raw, start)
-    po = None
-    if ro["st"] == "done" and pack:
-        po = rp.run_pack(mod, ro["pkt"])
     rec = {"prog": d["prog"], "root": d["root"], "raw": list(raw), "start": start,
            "generic": generic, "genericp": genericp, "c01": bool(c01), "has2": False, "shift": 0,
            "cu": uobs(ro), "cp": pobs(po)}
@@ -44,7 +40,19 @@ def record(mod, d, raw, start, gen, c01=True, pack=True):
             extra[tag + "_escape"] = "%s: %s" % (o["exc_type"], o["exc_msg"])
         if "str_error" in o:
             extra[tag + "_str_error"] = o["str_error"]
+        if "silent_error" in o:
+            extra["silent_error"] = o["silent_error"]
+        if "notbytes_error" in o:
+            extra["notbytes_error"] = o["notbytes_error"]
     return rec, extra
+
+
+def record(mod, d, raw, start, gen, c01=True, pack=True):
+    ro = rp.run_unpack(mod, d["root"], raw, start)
+    po = None
+    if ro["st"] == "done" and pack:
+        po = rp.run_pack(mod, ro["pkt"])
+    return make_record(d, raw, start, gen, ro, po, c01)
 
 
 def judge(records, timeout=3000, workers=8):
